@@ -1,8 +1,9 @@
 (* C07 - successful auto-import makes code runnable; ambiguity is never guessed.
    Only statements, `exact`, and Print Assumptions here; proofs are in AutoImp/ResolveProofs.v. *)
 From Coq Require Import NArith List Bool.
-From Verif Require Import AutoImp.World AutoImp.Needs AutoImp.TryImport AutoImp.AutoImport AutoImp.Spec
-                          AutoImp.Wire AutoImp.AutoImportProofs AutoImp.TryImportProofs AutoImp.ResolveProofs.
+From Verif Require Import AutoImp.World AutoImp.Needs AutoImp.TryImport AutoImp.AutoImport AutoImp.Spec AutoImp.Inv
+                          AutoImp.Wire AutoImp.AutoImportProofs AutoImp.TryImportProofs AutoImp.ResolveProofs
+                          AutoImp.WfProofs.
 Import ListNotations.
 
 (* success.  DESIGN Appendix I states it as
@@ -23,6 +24,33 @@ Theorem C07_success_resolves_refuted :
     auto_import w idx (Some ms) st = (st', RTrue) /\ exists m, In m ms /\ needs st' m = true.
 Proof. exact success_resolves_refuted. Qed.
 Print Assumptions C07_success_resolves_refuted.
+
+(* ... and the needs-form DOES hold - for every world without attribute/submodule clash (the shape of
+   F07a), every DB index, every well-formed interpreter state (Inv.WF: sys.modules holds the modules
+   of those names, submodules are attributes of their parents, module objects in namespaces and
+   attributes are registered) and every list of missing names: after a True result NO name of the
+   list needs import any more.  WF is preserved by every operation of the model (WfProofs), so this
+   holds after every call of a history started in a WF state; the boolean checkers the harness
+   evaluates on each initial state imply the hypotheses (wfp_b_sound, noclash_b_sound). *)
+Theorem C07_success_resolves_wf : forall w idx ms st st',
+  noclash w -> WF w st -> idx_ok idx -> nss st <> [] ->
+  auto_import w idx (Some ms) st = (st', RTrue) ->
+  forall m, In m ms -> m <> [] -> needs st' m = false.
+Proof. exact success_resolves_wf. Qed.
+Print Assumptions C07_success_resolves_wf.
+
+Theorem C07_wf_preserved : forall w idx ms s ok s' r,
+  noclash w -> WF w s -> symbols w idx ms s ok = (s', r) -> WF w s' /\ ext s s'.
+Proof. exact symbols_wf. Qed.
+Print Assumptions C07_wf_preserved.
+
+Theorem C07_wfp_b_sound : forall w s, wfp_b w s = true -> WF w s.
+Proof. exact wfp_b_sound. Qed.
+Print Assumptions C07_wfp_b_sound.
+
+Theorem C07_noclash_b_sound : forall mods, noclash_b mods = true -> noclash (fun d => assoc d mods).
+Proof. exact noclash_b_sound. Qed.
+Print Assumptions C07_noclash_b_sound.
 
 (* the hypothesis plain_keys is needed: a dotted key in a namespace defeats it *)
 Theorem C07_success_needs_plain_keys :
@@ -90,6 +118,13 @@ Definition c07_idx := index [([1;2], [1;2]); ([1;3], [5]); ([4;3], [5])]%N [] fa
 Example C07_nonvacuous_success :
   let (st', r) := auto_import (mk_world c07_mods) c07_idx (Some [[1;2;3]])%N (ST [[]] [] [] [] [] [] []) in
   r = RTrue /\ ns_get st' 0 [1%N] = Some (OMod [1%N]) /\ needs st' [1;2;3]%N = false.
+Proof. vm_compute. repeat split. Qed.
+(* a well-formed state with pa imported and bound: pa.sa.xa needs `import pa.sa`; hypotheses hold by computation *)
+Example C07_nonvacuous_wf :
+  let st := mk_state (mk_world c07_mods) [[([1%N], OMod [1%N])]; []] [] [] [[1%N]] in
+  wfp_b (mk_world c07_mods) st = true /\ noclash_b (conv_mods c07_mods) = true /\
+  needs st [1;2;3]%N = true /\
+  snd (auto_import (mk_world c07_mods) c07_idx (Some [[1;2;3]])%N st) = RTrue.
 Proof. vm_compute. repeat split. Qed.
 Example C07_nonvacuous_ambiguous :
   known_import c07_idx [5;3]%N = Some [([1;3], [5]); ([4;3], [5])]%N
